@@ -1110,6 +1110,17 @@ _B._CTORS[_threading.Thread] = _ctor_thread
 _B._FUNCS[_threading.RLock] = _ctor_rlock
 
 
+def _ctor_lock(ex, st, args, kwargs, text):
+    """threading.Lock(): a new, free, non re-entrant lock"""
+    st = st.copy()
+    l = st.alloc(type(_threading.Lock()))
+    return [(st, ("val", l))]
+
+
+_B._FUNCS[_threading.Lock] = _ctor_lock
+T.declare_ghost("slot_log", Val)      # FutureResult: one entry (seen cb, seen extra, left cb, left extra) per critical section
+
+
 def _q(st):
     g = TABLE.ghost(st, "q_items")
     st.assume(z3.And(V.is_list(g), Val.llen(g) >= 0))
@@ -1315,6 +1326,27 @@ def _bs_shutdown(ex, st, args, kwargs, text):
     st.ghost["serving"] = z3.BoolVal(False)
     TABLE.ghost_append(st, "shutdown_log", V.S("shutdown"))
     return [(st, ("val", V.VNone))]
+
+
+@TABLE.register("socketserver.BaseServer.serve_forever")
+def _bs_serve_forever(ex, st, args, kwargs, text):
+    """BaseServer.serve_forever(): runs the serving loop until a shutdown request; `serving` holds from the call until it
+    returns (a shutdown() issued just before the loop starts is honoured at loop entry: CPython tests the request flag
+    first), and no longer afterwards.  A caller that publishes a 'serving' flag must have raised it before the call:
+    emitted as the obligation pre-of[serve_forever:serving_flag_raised_before_the_loop]"""
+    from pyvc.symexec import Obligation
+    st = st.copy()
+    me = ex.lift(args[0])
+    flag = st.read(Val.ref(me), "_PooledJSONRPCServer__serving")
+    st.obligations.append(Obligation("%s/pre-of[socketserver.BaseServer.serve_forever:serving_flag_raised_before_the_loop]" % ex.env.fn.key,
+                                     st.hyps(), flag == V.B(True), st.sig, "pre-of", "serving_flag_raised_before_the_loop",
+                                     ex.env.contract.props))
+    st.ghost["serving"] = z3.BoolVal(False)
+    TABLE.ghost_append(st, "shutdown_log", V.S("served"))
+    s_ex = st.copy()
+    s_ex.sig.append("serve_forever:raise")
+    e = ex.env_exc(s_ex, BaseException)
+    return [(st, ("val", V.VNone)), (s_ex, ("raise", e))]
 
 
 @TABLE.register("socketserver.TCPServer.server_close")
